@@ -40,7 +40,7 @@ def setup_worker():
 
 fl = st.floats
 AFF_KINDS = ["int_t", "near_int_t", "frac_t", "big_t", "scale", "scale_lim", "scale_t_int", "scale_t_frac", "scale_t_uniform",
-             "scale_t_near1", "scale_t_dyadic", "mixed", "shear", "rot", "sing", "huge", "identityish"]
+             "scale_t_near1", "scale_t_dyadic", "one_axis_scale_shift", "mixed", "shear", "rot", "sing", "huge", "identityish"]
 
 
 @st.composite
@@ -79,6 +79,15 @@ def affine(draw, kinds=AFF_KINDS):
         sx, sy = draw(st.sampled_from(dy_)), draw(st.sampled_from(dy_))
         cx, cy = 8 * ri(-250, 250), 8 * ri(-250, 250)
         return k, [sx, 0, 0, sy, (1 - sx) * cx, (1 - sy) * cy]
+    if k == "one_axis_scale_shift":
+        # scale exactly 1 on one axis *with* a shift on that axis, the other axis scaled about an integral (or not) centre:
+        # the guard (1 == sx) == (0 == dx) of the ScaleAroundCenter branch
+        s_ = draw(st.sampled_from([0.5, 0.75, 1.5, -1.0, 0.25, 1.25, -0.5]))
+        c_ = draw(st.one_of(st.integers(-2000, 2000).map(float), st.floats(-500, 500).map(lambda x: round(x, 3))))
+        shift = draw(st.one_of(st.integers(-500, 500).filter(lambda x: x != 0).map(float), st.floats(1, 300).map(lambda x: round(x, 3))))
+        if draw(st.booleans()):
+            return k, [1.0, 0, 0, s_, shift, (1 - s_) * c_]
+        return k, [s_, 0, 0, 1.0, (1 - s_) * c_, shift]
     if k == "scale_t_frac":
         return k, [r(-1.9, 1.9), 0, 0, r(-1.9, 1.9), r(-500, 500), draw(st.sampled_from([0.0, 1.0])) * r(-500, 500)]
     if k == "scale_t_near1":
